@@ -510,7 +510,7 @@ static unsigned avl_chk (avl_tree_t * t, avl_node_t * n, avl_node_t * parent, av
   if (n->prev != *last) *ok = 0;
   if (*last != NULL && (*last)->next != n) *ok = 0;
   if (*last == NULL && t->head != n) *ok = 0;
-  if (*last != NULL && t->cmp ((*last)->item, n->item) >= 0) *ok = 0;
+  if (t->cmp != NULL && *last != NULL && t->cmp ((*last)->item, n->item) >= 0) *ok = 0;
   *last = n;
   cr = avl_chk (t, n->right, n, last, ok, &hr);
   if (n->count != cl + cr + 1) *ok = 0;
@@ -596,6 +596,120 @@ static void run_avl (unsigned long *par, int npar, char **ops, int nops)
   SC_FREE (arena);
 }
 
+/* ---------- AVL tree as a sequence: the caller chooses the position (avl_insert_before / _after / _top, avl_delete_node) ---------- */
+static void run_aseq (unsigned long *par, int npar, char **ops, int nops)
+{
+  int i, withfree = (int) par[0];
+  aitem_t *arena = SC_ALLOC (aitem_t, nops + 1);
+  avl_tree_t *tree;
+  g_avl_freed = 0;
+  tree = avl_alloc_tree (NULL, withfree ? avl_free_fn : NULL);     /* no compare function: never called on these paths */
+  for (i = 0; i < nops; ++i) {
+    opr_t o; aitem_t *k = &arena[i], *it; avl_node_t *node, *nn, *res; int n;
+    parse_op (ops[i], &o);
+    k->key = (int) o.a[1]; k->tag = (unsigned) o.a[2];
+    if (i) osep ();
+    switch (o.op) {
+    case 'P': case 'N':
+      node = avl_at (tree, (unsigned) o.a[0]);
+      nn = avl_init_node (SC_ALLOC (avl_node_t, 1), k);
+      res = o.op == 'P' ? avl_insert_before (tree, node, nn) : avl_insert_after (tree, node, nn);
+      oput ("%c %x", o.op, avl_count (tree));
+      if (res != nn || nn->item != (void *) k) oput (" WRONG_NODE");
+      break;
+    case 'D':
+      node = avl_at (tree, (unsigned) o.a[0]);
+      it = (aitem_t *) avl_delete_node (tree, node);
+      if (it != NULL) oput ("D 1 %x.%x %x", (unsigned) it->key, it->tag, avl_count (tree)); else oput ("D 0 %x", avl_count (tree));
+      break;
+    case 'a':
+      node = avl_at (tree, (unsigned) o.a[0]);
+      if (node != NULL) { it = (aitem_t *) node->item; oput ("a %x.%x", (unsigned) it->key, it->tag); } else oput ("a -");
+      break;
+    case 'x':
+      node = avl_at (tree, (unsigned) o.a[0]);
+      if (node != NULL) oput ("x %x", avl_index (node)); else oput ("x -");
+      break;
+    case 'c': {
+      int ok = 1, h = 0; avl_node_t *last = NULL;
+      unsigned sz = avl_chk (tree, tree->top, NULL, &last, &ok, &h);
+      if (tree->tail != last) ok = 0;
+      if (tree->top == NULL && tree->head != NULL) ok = 0;
+      oput ("c %x %d | %x %x", avl_count (tree), ok && sz == avl_count (tree), tree->top ? (unsigned) ((aitem_t *) tree->top->item)->key : 0u, h);
+      break; }
+    case 'f':
+      n = 0; g_print = 0; avl_foreach (tree, avl_visit_fn, &n); oput ("f %x", n);
+      n = 0; g_print = 1; avl_foreach (tree, avl_visit_fn, &n); break;
+    case 't':
+      for (n = 0, node = tree->head; node != NULL; node = node->next) ++n;
+      oput ("t %x", n);
+      for (node = tree->head; node != NULL; node = node->next) { it = (aitem_t *) node->item; oput (" %x.%x", (unsigned) it->key, it->tag); }
+      break;
+    case 'b':
+      for (n = 0, node = tree->tail; node != NULL; node = node->prev) ++n;
+      oput ("b %x", n);
+      for (node = tree->tail; node != NULL; node = node->prev) { it = (aitem_t *) node->item; oput (" %x.%x", (unsigned) it->key, it->tag); }
+      break;
+    case 'e':
+      oput ("e");
+      if (tree->head) { it = (aitem_t *) tree->head->item; oput (" %x.%x", (unsigned) it->key, it->tag); } else oput (" -");
+      if (tree->tail) { it = (aitem_t *) tree->tail->item; oput (" %x.%x", (unsigned) it->key, it->tag); } else oput (" -");
+      break;
+    case 'z': avl_free_nodes (tree); oput ("z %x", avl_count (tree)); break;
+    default: oput ("UNKNOWN_OP");
+    }
+  }
+  avl_free_tree (tree);
+  osep (); oput ("Z %x", withfree ? g_avl_freed : 0);
+  SC_FREE (arena);
+}
+
+/* ---------- two lists (and a third user holding items) on one allocator ---------- */
+static void run_mlist (unsigned long *par, int npar, char **ops, int nops)
+{
+  int pre = (int) par[0], i, j, unlinked = 0, ok = 1;
+  sc_mempool_t *ext = sc_mempool_new (sizeof (sc_link_t));
+  void **held = SC_ALLOC (void *, pre + 1);
+  sc_list_t stat[2];
+  for (j = 0; j < pre; ++j) { held[j] = sc_mempool_alloc (ext); memset (held[j], 0x5a, sizeof (sc_link_t)); }
+  sc_list_init (&stat[0], ext); sc_list_init (&stat[1], ext);
+  for (i = 0; i < nops; ++i) {
+    opr_t o; sc_link_t *lk; size_t ret = 0; size_t n; sc_list_t *list;
+    parse_op (ops[i], &o);
+    list = &stat[o.a[0] ? 1 : 0];
+    if (i) osep ();
+    switch (o.op) {
+    case 'p': sc_list_prepend (list, (void *) (size_t) o.a[1]); break;
+    case 'q': sc_list_append (list, (void *) (size_t) o.a[1]); break;
+    case 'n': for (lk = list->first, n = 0; n < o.a[1]; ++n) lk = lk->next;
+      sc_list_insert (list, lk, (void *) (size_t) o.a[2]); break;
+    case 'm': for (lk = list->first, n = 0; n < o.a[1]; ++n) lk = lk->next;
+      ret = (size_t) sc_list_remove (list, lk); break;
+    case 'o': ret = (size_t) ((o.n > 1 && o.a[1]) ? sc_list_remove (list, NULL) : sc_list_pop (list)); break;
+    case 'x': sc_list_reset (list); break;
+    case 'u': sc_list_unlink (list); unlinked = 1; break;
+    case 'd':
+      for (lk = list->first, n = 0; lk != NULL; lk = lk->next) ++n;
+      oput ("d %zx", n);
+      for (lk = list->first; lk != NULL; lk = lk->next) oput (" %zx", (size_t) lk->data);
+      continue;
+    default: oput ("UNKNOWN_OP"); continue;
+    }
+    oput ("%c %zx %zx", o.op, ret, list->elem_count);
+    if (list->first) oput (" %zx", (size_t) list->first->data); else oput (" -");
+    if (list->last) oput (" %zx", (size_t) list->last->data); else oput (" -");
+    oput (" | %zx", ext->elem_count);
+  }
+  if (!unlinked && ext->elem_count != (size_t) pre + stat[0].elem_count + stat[1].elem_count) {
+    osep (); oput ("ALLOCATOR_COUNT %zx IS_NOT_THE_SUM %zx", ext->elem_count, (size_t) pre + stat[0].elem_count + stat[1].elem_count);
+  }
+  sc_list_reset (&stat[0]); sc_list_reset (&stat[1]);
+  for (j = 0; j < pre; ++j) { size_t z; unsigned char *q = (unsigned char *) held[j]; for (z = 0; z < sizeof (sc_link_t); ++z) if (q[z] != 0x5a) ok = 0; }
+  if (!ok) { osep (); oput ("FOREIGN_ITEM_CLOBBERED"); }
+  if (!unlinked && ext->elem_count != (size_t) pre) { osep (); oput ("EXTERNAL_ALLOCATOR_COUNT %zx", ext->elem_count); }
+  sc_mempool_destroy (ext); SC_FREE (held);
+}
+
 int main (void)
 {
   char *line = NULL; size_t cap = 0; ssize_t len;
@@ -625,6 +739,8 @@ int main (void)
     else if (!strcmp (cname, "rec")) run_rec (par, npar, ops, nops);
     else if (!strcmp (cname, "kv")) run_kv (par, npar, ops, nops);
     else if (!strcmp (cname, "avl")) run_avl (par, npar, ops, nops);
+    else if (!strcmp (cname, "aseq")) run_aseq (par, npar, ops, nops);
+    else if (!strcmp (cname, "mlist")) run_mlist (par, npar, ops, nops);
     else oput ("UNKNOWN_CONTAINER");
     if (nops) osep ();
     oput ("E %x", (unsigned) (sc_memory_status (-1) - before));
